@@ -384,9 +384,11 @@ class HeavyHitters:
         self.threshold_sort = np.uint32(0)
 
         # Number of bytes needed for lhh, lhh_count, n_added_records
-        lhh_nbytes = int(max_key_len * width * depth)
-        lhh_count_nbytes = int(4 * width * depth)
-        key_lens_nbytes = int(1 * width * depth)
+        # Convert before multiplying: width, depth and max_key_len may be small numpy
+        # integer types (np.uint8, np.int8, ...) whose product would wrap around
+        lhh_nbytes = int(max_key_len) * int(width) * int(depth)
+        lhh_count_nbytes = 4 * int(width) * int(depth)
+        key_lens_nbytes = int(width) * int(depth)
         n_added_nbytes = 8 * 2
 
         if shared_memory:
